@@ -91,14 +91,14 @@ def stepFacet (t : Facet.Spec.Table) (ops : List Spec.IxOp) : Facet.Spec.Table :
   (ops.filterMap Spec.facetOp).foldl Facet.Spec.stepT t
 
 /-- every table is advanced by the calls its own index receives -/
-def specStep (pre : List (Entry Doc)) : List (Entry Doc) → List (String × SpecT) → Op Doc → List (String × SpecT)
+def specStep (pre : List (Spec.Cfg Doc)) : List (Entry Doc) → List (String × SpecT) → Op Doc → List (String × SpecT)
   | e :: es, (n, t) :: ts, op =>
-    let ops := Spec.project pre e op
+    let ops := Spec.project pre e.disc op
     let t' := match t with
       | .field t => SpecT.field (stepField t ops)
       | .keyword t => SpecT.keyword (stepKw t ops)
       | .facet F t => SpecT.facet F (stepFacet t ops)
-    (n, t') :: specStep (pre ++ [e]) es ts op
+    (n, t') :: specStep (pre ++ [Spec.cfgOf e]) es ts op
   | _, _, _ => []
 
 def apply (st : St) (op : Op Doc) : St × String :=
